@@ -373,12 +373,20 @@ class ExprMixin(object):
     t = self.eq_values(a, b, st)
     yield st, VBool(z3.Not(t) if negate else t)
 
+  _DUNDER = {ast.BitOr: '__or__', ast.Sub: '__sub__', ast.Add: '__add__', ast.BitAnd: '__and__', ast.Mult: '__mul__'}
+
   def ev_BinOp(self, n, st):
     for st1, vals in self.ev_many([n.left, n.right], st):
       if isinstance(vals, Exc):
         yield st1, vals
-      else:
-        yield st1, self.binop(n.op, vals[0], vals[1], st1)
+        continue
+      a, b = vals
+      if isinstance(a, VRef) and a.ty.kind == 'obj' and type(n.op) in self._DUNDER:
+        q = self.world.find_method(a.ty.name, self._DUNDER[type(n.op)])
+        if q is not None:
+          yield from self.call_qualified(q, [a, b], {}, st1, self_val=a)
+          continue
+      yield st1, self.binop(n.op, a, b, st1)
 
   def ev_Lambda(self, n, st):
     yield st, VFunc(n, st.env, self.cur_mod, '<lambda>')
